@@ -62,13 +62,21 @@ def nontrivial(req, impl):
     return req.startswith("c09\t") and " v:" in impl
 
 
+# a variable whose only use is at depth 2 of an object argument (stream `nested`, witness nested-object-var)
+_NESTED_GEN = "{ inner: { id: $nstv } }".encode().hex()
+_NESTED_WIT = "{ owner: { id: $ownerId } }".encode().hex()
+
+
 def classify(req, impl):
     k = _ops.case_classes(req, impl)
     if k is not None:
         return k
     if req.startswith("c09\t"):
         name = "refetch-query" if "__refetch__query_text__" in req else "entrypoint-query"
-        return [name, "value" if " v:" in impl else "no-value"]
+        out = [name, "value" if " v:" in impl else "no-value"]
+        if _NESTED_GEN in impl or _NESTED_WIT in impl:
+            out.append("nested-object-var")
+        return out
     return None
 
 
@@ -84,4 +92,7 @@ def check_distribution(dist, cases):
     for tag in ("default", "safe", "objvar", "risky", "refetch"):
         if dist.get(f"class:tag={tag}", 0) == 0:
             return f"stream {tag} missing"
+    if dist.get("class:nested-object-var", 0) < 3:
+        return (f"only {dist.get('class:nested-object-var', 0)} operations use a variable at depth 2 of an object argument "
+                "(stream `nested`, witness nested-object-var)")
     return None
